@@ -68,6 +68,8 @@ type c06Case struct {
 	// Late > 0: the last Late routes of the table are registered only after the first round of requests was served (the
 	// first round is judged against the shorter table, the second against the full one)
 	Late int `json:"late_registrations,omitempty"`
+	// Via > 0: every route is registered through regAPIs[Via] instead of Add (AddRoute(NewRoute), AddNamed, AttachTo, ...)
+	Via int `json:"registration_api,omitempty"`
 }
 
 func c06Gen(tier string, emit func(c06Case)) {
@@ -101,6 +103,9 @@ func c06Gen(tier string, emit func(c06Case)) {
 	rec(nil)
 	for _, t := range tables {
 		for o := 0; o < 16; o++ {
+			for via := 1; via < len(regAPIs) && len(t) > 0; via++ {
+				emit(c06Case{Routes: t, NotAllowed: o&1 != 0, Fallback: o&2 != 0, Strict: o&4 != 0, Cache: o&8 != 0, Via: via})
+			}
 			for late := 1; late <= len(t) && late <= 2; late++ {
 				emit(c06Case{Routes: t, NotAllowed: o&1 != 0, Fallback: o&2 != 0, Strict: o&4 != 0, Cache: o&8 != 0, Late: late})
 			}
@@ -169,7 +174,13 @@ func c06Run(c c06Case, st *fw.Stats) []fw.Viol {
 			panic(err)
 		}
 	}
-	r, pv := buildRouter(defs[:early], rec, opts...)
+	var via []string
+	if c.Via > 0 {
+		for range defs {
+			via = append(via, regAPIs[c.Via])
+		}
+	}
+	r, pv := buildRouterVia(defs[:early], via, rec, opts...)
 	if pv != nil {
 		add("register:panic", fmt.Sprintf("config %+v: registration panicked: %v", c, pv))
 		return viols
@@ -190,6 +201,9 @@ func c06Run(c c06Case, st *fw.Stats) []fw.Viol {
 	cfg := func() string {
 		if c.Late > 0 {
 			return fmt.Sprintf("table [%s] (the last %d registered after a first round of all requests) options{notAllowed=%v fallback=%v strict=%v cache=%v}", defsString(defs), c.Late, c.NotAllowed, c.Fallback, c.Strict, c.Cache)
+		}
+		if c.Via > 0 {
+			return fmt.Sprintf("table [%s] (every route registered through %s) options{notAllowed=%v fallback=%v strict=%v cache=%v}", defsString(defs), regAPIs[c.Via], c.NotAllowed, c.Fallback, c.Strict, c.Cache)
 		}
 		return fmt.Sprintf("table [%s] options{notAllowed=%v fallback=%v strict=%v cache=%v intercept=%q(listed first=%v) customNF=%v customNA=%v}", defsString(defs), c.NotAllowed, c.Fallback, c.Strict, c.Cache, c.Intercept, c.InterceptFirst, c.CustomNF, c.CustomNA)
 	}
@@ -314,7 +328,7 @@ func c06Run(c c06Case, st *fw.Stats) []fw.Viol {
 var c06Spec = fw.Spec[c06Case]{
 	ID:    "C06",
 	Level: "model_checking",
-	Rule: "complete product: ordered tables of <=K routes from an 13-route pool x 2^4 option subsets {HandleMethodNotAllowed,HandleFallbackRoute,StrictLastSlash,caching (capacity 1 or 64)} x 6 InterceptAll values (listed after and before the other options) (+ every table with its last 1 or 2 routes registered only after a first round of all requests) x {default,custom} NotFound x {default,custom} NotAllowed; per configuration 10 methods x 8 paths, each request twice through Match and ServeHTTP, vs refmodel.Resolve; " +
+	Rule: "complete product: ordered tables of <=K routes from an 13-route pool x 2^4 option subsets {HandleMethodNotAllowed,HandleFallbackRoute,StrictLastSlash,caching (capacity 1 or 64)} x 6 InterceptAll values (listed after and before the other options) (+ every table with its last 1 or 2 routes registered only after a first round of all requests) (+ every table registered through each of the 6 other registration APIs) x {default,custom} NotFound x {default,custom} NotAllowed; per configuration 10 methods x 8 paths, each request twice through Match and ServeHTTP, vs refmodel.Resolve; " +
 		"non-trivial = a request that is not a direct match (HEAD->GET, fallback, 405, 404)",
 	Assume: []string{"routes, paths and option values come from the stated alphabets"},
 	Bounds: func(tier string) map[string]any {
